@@ -241,6 +241,7 @@ fn busy_owner(dir: &str, actors: &[Mutex<Actor>], n_threads: usize) -> Result<()
         Ok(Err(e)) => return Err(Fail::new("open-after-drop-refused", format!("every owner was dropped, yet the next open did not succeed: {e}"))),
         Err(p) => return Err(Fail::new("lock/panic", format!("open panicked: {}", panic_msg(&p)))),
     };
+    let mut snapshot = None;
     let work = std::panic::catch_unwind(std::panic::AssertUnwindSafe(|| -> Result<(), std::io::Error> {
         let (t, i0) = match rl.log_state().last() {
             Some((t, i)) => (t + 1, i + 1),
@@ -251,6 +252,9 @@ fn busy_owner(dir: &str, actors: &[Mutex<Actor>], n_threads: usize) -> Result<()
         let f1 = NEXT.fetch_add(1, Ordering::Relaxed);
         rl.flush(Some(crate::types::Cb::new(f1)))?;
         rl.wait_worker_idle();
+        // a data snapshot taken while the store holds several closed chunks; kept until after
+        // the store is dropped (see below)
+        snapshot = Some(rl.dump_data());
         let oldest = rl.stat().closed_chunks.first().map(|c| rl.config().chunk_path(c.chunk_id));
         rl.purge((t, i0 + 11))?;
         if let Some(p) = oldest {
@@ -298,7 +302,6 @@ fn busy_owner(dir: &str, actors: &[Mutex<Actor>], n_threads: usize) -> Result<()
     }
     // a data snapshot taken from the store is neither a store nor a dump: once the store is
     // dropped the directory must be free even while the snapshot is still around
-    let snapshot = std::panic::catch_unwind(std::panic::AssertUnwindSafe(|| rl.dump_data())).ok();
     drop(rl);
     crate::trace::wait_threads(threads0, crate::driver::WATCHDOG);
     if snapshot.is_some() {
